@@ -149,6 +149,11 @@ func genCase(t *rapid.T, entries []string) *Case {
 		c.LT, c.Type = int(lt), lt.String()
 	}
 	c.Data, _ = gen.Bytes(t)
+	if c.Entry != "dfb" && rapid.IntRange(0, 7).Draw(t, "suffix") == 0 {
+		if b, slt, ok := gen.StackSuffix(t); ok {
+			c.LT, c.Type, c.Data = int(slt), slt.String(), gen.Mutate(t, b)
+		}
+	}
 	return c
 }
 
